@@ -413,7 +413,11 @@ class SmartCloudSync(CloudSync):
         if remote_path:
             for ent in self.state.smart_listdir_path(REMOTE, remote_path):
                 if self.translate(LOCAL, ent[REMOTE].path):
-                    remote_ents[remote.basename(ent[REMOTE].path)] = ent
+                    name = remote.basename(ent[REMOTE].path)
+                    prior = remote_ents.get(name)
+                    # the entry of a deleted file must not shadow a live one of the same name (delete, then re-create)
+                    if prior is None or prior[REMOTE].exists in (TRASHED, MISSING):
+                        remote_ents[name] = ent
         names = set(local_dir_ents.keys()).union(remote_ents.keys())
         for name in names:
             rent = remote_ents.get(name)
